@@ -208,7 +208,7 @@ PROPS = {
             {"name": "streams", "test": "TestStreams", "checks": {Q: 12000, T: 400000}, "shards": {Q: 8, T: 16}, "timeout": {Q: 400, T: 2400}},
             {"name": "probe", "test": "TestProbeAnsiSplit", "checks": {Q: 400, T: 4000}, "shards": {Q: 1, T: 4}, "timeout": {Q: 300, T: 900}},
             {"name": "matrix", "test": "TestFormatsMatrix", "kind": "plain", "shards": {Q: 6, T: 6}, "timeout": {Q: 400, T: 900}},
-            {"name": "frames", "test": "TestCockpitFrames", "checks": {Q: 16, T: 320}, "shards": {Q: 8, T: 16}, "timeout": {Q: 400, T: 2400}, "shrinktime": "40s"},
+            {"name": "frames", "test": "TestCockpitFrames", "checks": {Q: 32, T: 640}, "shards": {Q: 8, T: 16}, "timeout": {Q: 400, T: 2400}, "shrinktime": "40s"},
             {"name": "formats", "test": "TestFormats", "checks": {Q: 48, T: 1600}, "shards": {Q: 8, T: 16}, "timeout": {Q: 400, T: 2400}, "shrinktime": "40s"},
         ],
     },
